@@ -83,7 +83,10 @@ def cases(draw):
     x0 = onp.array(draw(st.lists(gen.floats(-2, 2), min_size=n, max_size=n)))
     lam0 = [draw(gen.floats(0.0, 2.0)) if draw(st.booleans()) else 0.0 for _ in range(m)]
     s = {'second': draw(st.booleans()), 'nlow': draw(st.integers(0, 4)), 'pen': draw(gen.floats(1.0, 10.0)), 'dec': draw(gen.floats(0.3, 0.9)),
-         'tol_exp': draw(st.integers(-10, -6)), 'kexp': draw(st.integers(-1, 1)), 'warm': draw(st.booleans())}
+         'tol_exp': draw(st.integers(-10, -6)), 'kexp': draw(st.integers(-1, 1)), 'warm': draw(st.booleans()),
+         # iteration cap of the trust-region sub-solver: a small cap makes sub-solves return without success, which is an
+         # admissible setting and the path on which the multiplier/penalty updates are guarded by the sub-solver's flag
+         'sub_iters': [200, 200, 2, 1, 3, 6][draw(st.integers(0, 5))]}
     return {'n': n, 'm': m, 'coef': coef, 'ckind': ckind, 'cons': cons, 'x0': x0.tolist(), 'lam0': lam0, 'settings': s}
 
 
@@ -171,7 +174,7 @@ def check(case):
     tol = 10.0 ** s['tol_exp'] * max(coef['scale'], 1.0)
     al = AlSolver.get_settings(penalty_scaling=s['pen'], target_constraint_decrease_factor=s['dec'], use_second_order_update=s['second'],
                                num_initial_low_order_iterations=s['nlow'], tol=tol, max_al_iters=60)
-    sub = ES.get_settings(tol=0.5 * tol, max_trust_iters=200)
+    sub = ES.get_settings(tol=0.5 * tol, max_trust_iters=s.get('sub_iters', 200))
     hist = []
     cb = lambda x, pp: hist.append((onp.array(o.lam), onp.array(o.kappa)))
     x0 = np.array(case['x0']) + np.array(xu)
@@ -233,6 +236,8 @@ def check(case):
         classes.append('penalty-increase')
     if second_taken:
         classes.append('second-order-taken')
+    if 'Reached the maximum number of trust region iterations' in log:
+        classes.append('sub-solver-capped')
     if any(cd['role'] == 'redundant' for cd in case['cons']):
         classes.append('redundant')
     if any(cd['role'] == 'weak' for cd in case['cons']):
@@ -308,7 +313,7 @@ def check_bounds(case):
 
 SUBCHECKS = [
     Sub('general', cases, check, quick=100, thorough=2500, shards_quick=12, shards_thorough=12,
-        required=('linear', 'ball', 'second', 'first', 'active', 'penalty-increase', 'second-order-taken', 'reference', 'redundant', 'weakly-active'),
+        required=('linear', 'ball', 'second', 'first', 'active', 'penalty-increase', 'second-order-taken', 'reference', 'redundant', 'weakly-active', 'sub-solver-capped'),
         budget_quick=170, timeout=300),
     Sub('bounds', bound_cases, check_bounds, quick=30, thorough=200, shards_quick=4, shards_thorough=4, required=('ps', 'nops', 'active'),
         budget_quick=170, timeout=300),
